@@ -263,8 +263,12 @@ def run_ntag(sim, nfc, params):
     if sim.sample is None:
         sim.sample = desc
 
+    nak = sim.pick("ntag.nak", [0x04, 0x00, 0x01, 0x05])
+    desc["nak"] = nak
+
     def world(pwd_=pwd, pack_=pack, auth0=0xFF):
         sil = t2t.NTAG21xSilicon(prod, uid, pwd=pwd_, pack=pack_, auth0=auth0)
+        sil.nak_code = nak
         w = World(nfc, [sil])
         w.silicon = sil
         return w
@@ -276,6 +280,8 @@ def run_ntag(sim, nfc, params):
         wk[sim.choose("wk.i", 2)] ^= 1 << sim.choose("wk.b", 8)
         variants = [("exact", key, True), ("longer", key + b"zz", True), ("wrong-pwd", bytes(wp) + pack, False),
                     ("wrong-pack", pwd + bytes(wk), False), ("empty", b"", key == b"\xFF\xFF\xFF\xFF\x00\x00"),
+                    # a wrong password whose expected PACK ends in the very byte the tag answers as NAK
+                    ("wrong-pwd-pack-tail-is-nak", bytes(wp) + pack[:1] + bytes([nak]), False),
                     ("unrelated", sim.bytes("unrel", 6, tag=4), False)]
         for name, pw, want in variants:
             with world() as w:
